@@ -40,8 +40,8 @@ func (e *C15Script) Floors(string) map[string]int {
 func (e *C15Script) Run(ctx *core.Ctx, idx int) {
 	r := ctx.Rand
 	n := 6 + r.Intn(4)
-	force := idx % 4        // 0 replicas raised, 1 replicas raised and a selected node deleted, 2 a selected node deleted, 3 a selected node relabelled
-	anti := (idx/4)%2 == 0  // nodeAntiAffinityKeys
+	force := idx % 4       // 0 replicas raised, 1 replicas raised and a selected node deleted, 2 a selected node deleted, 3 a selected node relabelled
+	anti := (idx/4)%2 == 0 // nodeAntiAffinityKeys
 	restart := (idx/8)%4 == 3
 	w := NewWorld(ctx, kit.CtlOpts{Affinity: r.Intn(2) == 0})
 	for i := 0; i < n; i++ {
@@ -147,4 +147,3 @@ func (e *C15Script) Run(ctx *core.Ctx, idx int) {
 		w.Mon.viol("C15", "C15.count", merge(attrs, "cause", "fewer-or-more-than-requested-without-error"), nil, desc)
 	}
 }
-
